@@ -60,17 +60,26 @@ make_dict() {
 build() {
     make_shadow
     make_dict
-    # first with the concurrent pass (needs the rewritten copy to compile and CompiledExpression to be Send + Sync)
-    if (cd "$ROOT/sim" && cargo build --release --offline --features shuttled >"$ROOT/target.build.log" 2>&1); then return 0; fi
-    if grep -q "lipe-find-parser-shuttled\|lipe_find_parser_shuttled\|c20conc" "$ROOT/target.build.log"; then
-        echo "note: the rewritten copy of the library does not build; the concurrent pass of C20 is skipped (see $ROOT/target.build.log.shuttled)" >&2
-        cp "$ROOT/target.build.log" "$ROOT/target.build.log.shuttled"
-    fi
-    if ! (cd "$ROOT/sim" && cargo build --release --offline >"$ROOT/target.build.log" 2>&1); then
-        echo "harness error: build of fpsim against /repo failed (see $ROOT/target.build.log)" >&2
-        tail -n 30 "$ROOT/target.build.log" >&2
-        exit 2
-    fi
+    # feature sets from the fullest to the barest; the first that builds is used.
+    #   shuttled: the concurrent passes (need the rewritten copy to compile and CompiledExpression to be Send + Sync)
+    #   astwalk:  the walk over the public syntax tree (sim/src/astwalk.rs: needs the tree to keep its shape)
+    for feats in shuttled,astwalk shuttled astwalk ""; do
+        if (cd "$ROOT/sim" && cargo build --release --offline --features "$feats" >"$ROOT/target.build.log" 2>&1); then
+            case "$feats" in
+                shuttled,astwalk) ;;
+                shuttled) echo "note: sim/src/astwalk.rs does not build against this tree (the syntax tree changed shape?); comparisons with handles on sub-expressions held are skipped (see $ROOT/target.build.log.astwalk)" >&2 ;;
+                *) echo "note: the rewritten copy of the library does not build; the concurrent passes are skipped (see $ROOT/target.build.log.shuttled)" >&2 ;;
+            esac
+            return 0
+        fi
+        case "$feats" in
+            shuttled,astwalk) cp "$ROOT/target.build.log" "$ROOT/target.build.log.astwalk" ;;
+            shuttled) cp "$ROOT/target.build.log" "$ROOT/target.build.log.shuttled" ;;
+        esac
+    done
+    echo "harness error: build of fpsim against /repo failed (see $ROOT/target.build.log)" >&2
+    tail -n 30 "$ROOT/target.build.log" >&2
+    exit 2
 }
 # A copy of the library in which std's unkeyed DefaultHasher is replaced by a hasher with a
 # seven-value digest, and the harness built against it (fpsim-weak). Hash collisions are legal events
@@ -116,7 +125,8 @@ impl std::hash::Hasher for DefaultHasher {
 }
 RS
     printf '\n#[allow(dead_code)]\nmod __verif_hash;\n' >> "$SH/src/lib.rs"
-    if ! (cd "$ROOT/sim-weak" && cargo build --release --offline >"$ROOT/target.build.log.weak" 2>&1); then
+    if ! (cd "$ROOT/sim-weak" && cargo build --release --offline --features astwalk >"$ROOT/target.build.log.weak" 2>&1) &&
+       ! (cd "$ROOT/sim-weak" && cargo build --release --offline >"$ROOT/target.build.log.weak" 2>&1); then
         echo "note: the copy of the library with the weak DefaultHasher does not build; the weak-hash pass is skipped (see $ROOT/target.build.log.weak)" >&2
         return 1
     fi
@@ -125,12 +135,12 @@ RS
 build_debug() {
     make_shadow
     make_dict
-    if (cd "$ROOT/sim" && cargo build --offline --features shuttled >"$ROOT/target.build.log" 2>&1); then return 0; fi
-    if ! (cd "$ROOT/sim" && cargo build --offline >"$ROOT/target.build.log" 2>&1); then
-        echo "harness error: dev-profile build of fpsim against /repo failed (see $ROOT/target.build.log)" >&2
-        tail -n 30 "$ROOT/target.build.log" >&2
-        exit 2
-    fi
+    for feats in shuttled,astwalk shuttled astwalk ""; do
+        if (cd "$ROOT/sim" && cargo build --offline --features "$feats" >"$ROOT/target.build.log" 2>&1); then return 0; fi
+    done
+    echo "harness error: dev-profile build of fpsim against /repo failed (see $ROOT/target.build.log)" >&2
+    tail -n 30 "$ROOT/target.build.log" >&2
+    exit 2
 }
 # build the Miri sysroot and the small program interpreted by the Miri pass of C20 (best effort)
 build_miri() {
